@@ -91,6 +91,8 @@ pub struct Sim {
     race: u64,
     races_left: usize,
     race_ih: Option<Vec<u8>>,
+    /// answers may name a second id at a peer's address (only where contacts are not followed by address)
+    ghosts: bool,
 }
 
 fn sim_addr(v6: bool, i: usize, port: u16) -> SocketAddr {
@@ -175,8 +177,15 @@ impl Sim {
         }
         self.peers[pi].last_answer = Some(at);
         let nodes_txt = |ns: Vec<NodeHandle>| if ns.is_empty() { "-".to_string() } else { ns.iter().map(|n| format!("{}@{}", hex(n.id.as_ref()), addr_str(&n.addr))).collect::<Vec<_>>().join(";") };
+        // now and then an answer also names a second node id at the address of one of the peers (a node that
+        // restarted under a new id): two contacts at one address (round-4 seed C14: bucket rounds shared one id)
+        let ghost: Option<String> = if self.ghosts && !self.peers.is_empty() && self.dup_rng.chance(1, 12) {
+            let q = &self.peers[self.dup_rng.below(self.peers.len() as u64) as usize];
+            Some(format!("{}@{}", hex(&self.dup_rng.bytes(20)), addr_str(&q.addr)))
+        } else { None };
         let (n4, n6) = |t: &[u8]| -> (String, String) {
-            let ns = nodes_txt(self.closest(t, &from_addr));
+            let mut ns = nodes_txt(self.closest(t, &from_addr));
+            if let Some(g) = &ghost { if ns == "-" { ns = g.clone() } else { ns = format!("{ns};{g}") } }
             if self.v6 { ("-".into(), ns) } else { (ns, "-".into()) }
         }(match req {
             Request::FindNode(f) => f.target.as_ref(),
@@ -226,7 +235,7 @@ pub async fn run_scenario(world: &mut World, req: &str, case: usize, out: &mut V
     // the scenario line itself is the replayable unit for the scenario-level oracles
     out.push((format!("note {req}"), "-".to_string()));
     let v6 = rng.chance(1, 4);
-    let mut sim = Sim { rng: rng.fork(), v6, peers: vec![], reals: vec![], flights: BinaryHeap::new(), seq: 0, lat_ms: (5, 300), end: 0, now_hint: 0, dup: 0, dup_rng: Rng::new(seed ^ 0xd0b1_e5), race: 0, races_left: 0, race_ih: None };
+    let mut sim = Sim { rng: rng.fork(), v6, peers: vec![], reals: vec![], flights: BinaryHeap::new(), seq: 0, lat_ms: (5, 300), end: 0, now_hint: 0, dup: 0, dup_rng: Rng::new(seed ^ 0xd0b1_e5), race: 0, races_left: 0, race_ih: None, ghosts: kind == "boot" || kind == "probe" || kind == "early" };
     if kind != "e2e" && kind != "e2e24" && kind != "fresh" && kind != "slowsend" && sim.dup_rng.chance(1, 2) {
         sim.race = *sim.dup_rng.pick(&[2u64, 4, 8]);
         sim.races_left = 12;
